@@ -3,6 +3,7 @@ exactly the declared cron/time entries of its own broker's tasks and removes one
 import json
 
 import common as C
+import srctie
 
 META = dict(
     id="C16",
@@ -446,6 +447,10 @@ def explore(ctx, rep, cases, label):
 def run(ctx):
     rep = C.Report(ctx, META)
     rep.add_obligations(C.proof_obligations("C16"))
+    # source tie: TaskiqScheduler.on_ready re-translated from the source text; srcproofs/Src_on_ready_C16.v re-checked
+    src_obs, src_info = srctie.obligations(ctx, "on_ready", "C16")
+    rep.add_obligations(src_obs)
+    rep.extra["source_tie"] = src_info
     corpus = [c for _, c in C.load_corpus("C16")]
     if corpus:
         explore(ctx, rep, corpus, "corpus")
